@@ -13,6 +13,15 @@
 (* coordinate is within LatTol of a lattice point; the lattice point is then   *)
 (* THE coordinate (integers at scale e.lat) and every clause of Surgery.tla is  *)
 (* evaluated exactly on it, with the rational reflection as oracle.            *)
+(*                                                                             *)
+(* The result seen THROUGH THE LIBRARY (e.lib, mode L): besides its raw arrays *)
+(* the first result of an operation is asked for the images of the reference   *)
+(* centroid under its mapping() (cent), detDF there (det), Functional(1) and    *)
+(* Functional(x_i) per cell on a Basis over it (w, wx), its element_finder() at *)
+(* those centroids (find) and its facets table.  The Lib* clauses compare them  *)
+(* with the exact values computed from the raw arrays: anything an operation    *)
+(* carries over from its operand that belongs to the operand's geometry (a      *)
+(* cached mapping, search tree, facet table) shows as a disagreement.          *)
 EXTENDS Surgery
 F == INSTANCE Fx
 LatTol == F!FxTol(30)            \* 2^-30 lattice units; float round-off is < 2^-40 of them, a wrong plane is >= 1
@@ -36,15 +45,64 @@ CoordsOnLattice(e) == /\ e.lat \in 1..32767
 Exact(e) == [e EXCEPT !.pre = [j \in DOMAIN e.pre |-> SnapMesh(e.pre[j], e.lat)],
                       !.post = [j \in DOMAIN e.post |-> SnapMesh(e.post[j], e.lat)]]
 
+\* ---- the result seen through the library
+LibTol == F!FxTol(20)
+RECURSIVE IPow(_, _)
+IPow(x, n) == IF n = 0 THEN 1 ELSE x * IPow(x, n - 1)
+FxOK(a) == F!FxWF(a) /\ a[1] \in -30000..30000
+LNear(a, k, target) == FxOK(a) /\ k \in 1..32767 /\ F!FxNear(F!FxMulSmall(a, k), F!FxInt(target), LibTol)
+LibJudged(e) == e.err = "" /\ e.lib.ok \in {1, 2} /\ Len(e.post) >= 1
+CoordSum(m, k, j) == SumSeq([v \in DOMAIN m.t[k] |-> m.p[m.t[k][v]][j]])
+PostDim(e) == IF Len(Post(e).p) = 0 THEN 0 ELSE Len(Post(e).p[1])
+LibShape(e) == LET m == Post(e) L == e.lib IN
+  /\ Len(L.cent) = Len(m.t) /\ \A k \in DOMAIN L.cent : Len(L.cent[k]) = PostDim(e)
+  /\ L.det = <<>> \/ Len(L.det) = Len(m.t)
+  /\ L.w = <<>> \/ Len(L.w) = Len(m.t)
+  /\ L.wx = <<>> \/ (Len(L.wx) = Len(m.t) /\ \A k \in DOMAIN L.wx : Len(L.wx[k]) = PostDim(e))
+  /\ L.find = <<>> \/ Len(L.find) = Len(m.t)
+  /\ \A f \in DOMAIN L.facets : \A q \in DOMAIN L.facets[f] : L.facets[f][q] \in DOMAIN m.p
+\* mapping().F at the reference centroid = the mean of the cell's vertices (all first-order cells)
+LibCentroids(e) == LET m == Post(e) n == NNodes(m.kind) IN
+  \A k \in DOMAIN m.t : \A j \in 1..PostDim(e) : LNear(e.lib.cent[k][j], n * e.scale, CoordSum(m, k, j))
+\* mapping().detDF there = the signed measure * d! of a simplex, the signed area of a quadrilateral
+LibDetDF(e) == LET m == Post(e) d == Dim(m.kind) IN
+  e.lib.det = <<>> \/ \A k \in DOMAIN m.t :
+     IF m.kind = "quad" THEN LNear(e.lib.det[k], 2 * IPow(e.scale, d), QuadVol(GeoCellSeq(m, k)))
+     ELSE LNear(e.lib.det[k], IPow(e.scale, d), SimplexVol(GeoCellSeq(m, k)))
+\* Functional(1) per cell on a Basis over the result = the measure of the cell
+DFact(d) == CASE d = 1 -> 1 [] d = 2 -> 2 [] d = 3 -> 6
+LibMeasure(e) == LET m == Post(e) d == Dim(m.kind) IN
+  e.lib.w = <<>> \/ \A k \in DOMAIN m.t :
+     LNear(e.lib.w[k], DFact(d) * IPow(e.scale, d), CellVolAbs(m.kind, GeoCellSeq(m, k)))
+\* Functional(x_j) per cell = measure * centroid_j (simplices)
+LibFirstMoment(e) == LET m == Post(e) d == Dim(m.kind) IN
+  e.lib.wx = <<>> \/ \A k \in DOMAIN m.t : \A j \in 1..PostDim(e) :
+     LNear(e.lib.wx[k][j], DFact(d) * (d + 1) * IPow(e.scale, d + 1),
+           CellVolAbs(m.kind, GeoCellSeq(m, k)) * CoordSum(m, k, j))
+\* element_finder() at the centroid of a cell finds that cell
+LibFinder(e) == LET m == Post(e) IN
+  e.lib.find = <<>> \/ \A k \in DOMAIN m.t : e.lib.find[k] \in DOMAIN m.t /\ GeoCell(m, e.lib.find[k]) = GeoCell(m, k)
+\* the facets table of the result holds the facets of its cells
+LibFacets(e) == LET m == Post(e) IN
+  e.lib.facets = <<>> \/ {PtsOf(m, e.lib.facets[f]) : f \in DOMAIN e.lib.facets} = GeoFacets(m)
+LibClauses(e) ==
+  IF e.lib.ok = 2 THEN [LibAnswers |-> FALSE]            \* the library raised when asked about its own (well-formed) result
+  ELSE IF ~LibShape(e) THEN [LibAnswers |-> TRUE, LibWellFormed |-> FALSE]
+  ELSE [ LibAnswers |-> TRUE, LibWellFormed |-> TRUE, LibCentroids |-> LibCentroids(e), LibDetDF |-> LibDetDF(e),
+         LibMeasure |-> LibMeasure(e), LibFirstMoment |-> LibFirstMoment(e), LibFinder |-> LibFinder(e),
+         LibFacets |-> LibFacets(e) ]
+
 \* the document the harness wrote has the shape this specification reads (evaluated first: a malformed event is a
 \* failure of the machinery, reported by name instead of a TLC evaluation error)
-EventFields == {"a", "op", "err", "pre", "post", "par", "ck_pre", "ck_post", "self", "lat", "sid", "pos"}
+EventFields == {"a", "op", "err", "pre", "post", "par", "ck_pre", "ck_post", "self", "lat", "scale", "lib", "sid", "pos"}
+LibFields   == {"ok", "cent", "det", "w", "wx", "find", "facets"}
 ParFields   == {"elements", "ix", "skips", "skipb", "fnum", "fden", "d", "nrm", "p0", "nn", "A", "b", "facets", "fv",
                 "ret", "proj", "sign", "xmap"}
 MeshFields  == {"kind", "cls", "p", "t", "nf", "hass", "hasb", "sub", "bnd"}
 HarnessInputWellFormed(e) ==
   /\ EventFields \subseteq DOMAIN e
   /\ ParFields \subseteq DOMAIN e.par
+  /\ LibFields \subseteq DOMAIN e.lib
   /\ \A j \in DOMAIN e.pre  : MeshFields \subseteq DOMAIN e.pre[j]  /\ (e.lat > 0 => "pfx" \in DOMAIN e.pre[j])
   /\ \A j \in DOMAIN e.post : MeshFields \subseteq DOMAIN e.post[j] /\ (e.lat > 0 => "pfx" \in DOMAIN e.post[j])
   /\ e.err = "" => (e.op \in {"refine", "setup"} \/ (Len(e.pre) >= 1 /\ Len(e.post) >= 1))
@@ -53,7 +111,10 @@ Clauses(e0, prev) ==
   IF ~HarnessInputWellFormed(e0) THEN [HarnessInputWellFormed |-> FALSE]
   ELSE IF IsLat(e0) /\ ~CoordsOnLattice(e0) THEN [NoUnexpectedError |-> TRUE, CoordsOnLattice |-> FALSE]
   ELSE LET e    == IF IsLat(e0) THEN Exact(e0) ELSE e0
-           base == SurgeryClauses(e) @@ (IF IsLat(e0) THEN [CoordsOnLattice |-> TRUE] ELSE <<>>)
+           surg == SurgeryClauses(e)
+           \* judged through the library only when the raw arrays are well formed and not a named deviation
+           lib  == IF LibJudged(e) /\ "Valid" \in DOMAIN surg /\ e.op # "trace" THEN LibClauses(e) ELSE <<>>
+           base == surg @@ lib @@ (IF IsLat(e0) THEN [CoordsOnLattice |-> TRUE] ELSE <<>>)
        IN IF e.err = "" /\ e.pos > 1 /\ prev # <<>>
           THEN base @@ [PreStateMatches |-> e.self \in DOMAIN e.pre /\ e.pre[e.self] = prev] ELSE base
 Result(e0) == IF ~HarnessInputWellFormed(e0) THEN <<>> ELSE
